@@ -311,6 +311,11 @@ func C18(r *ev.Report) {
 func init() {
 	Parts["C18"] = Part{"C18", C18}
 	Replayers["C18"] = func(c Case) (bool, string) {
+		switch c["op"] {
+		case "Add", "Subtract", "Multiply", "Square", "Invert", "Pow", "SetUInt64", "Zero", "One", "MinusOne", "Add(nil)", "Subtract(nil)", "Multiply(nil)", "Set(nil)", "NewScalar":
+			return Replayers["C06"](c)
+		}
+
 		var s script
 
 		for j := 0; ; j++ {
